@@ -195,6 +195,9 @@ class Fragment:
         return self.content[index]
 
     def maybe_child(self, index: int) -> Optional["Node"]:
+        if index < 0:
+            # a negative index means "no such child" (it must not wrap around to the end)
+            return None
         try:
             return self.content[index]
         except IndexError:
